@@ -122,11 +122,12 @@ def build_queue_ops(run, prop, E):
             same_obj = q is ctx["q"]
             if name == "append":
                 k = z3.Int("k!skolem")
-                run.add(Obligation(prop, qualname(f), "appends_at_end", p.pc, z3.And(z3.BoolVal(same_obj), Z(q.length) == QN + 1, z3.Select(q.arr, QN) == mid),
+                run.add(Obligation(prop, qualname(f), "appends_at_end", p.pc, z3.And(z3.BoolVal(same_obj), lst_len(q) == QN + 1, z3.Select(lst_arr(q), QN) == mid),
                                    kind="post", where=where(f), tag=tag))
-                run.add(Obligation(prop, qualname(f), "prefix_unchanged", p.pc + [k >= 0, k < QN], z3.Select(q.arr, k) == z3.Select(QIDS, k), kind="post", where=where(f), tag=tag))
+                run.add(Obligation(prop, qualname(f), "prefix_unchanged", p.pc + [k >= 0, k < QN], z3.Select(lst_arr(q), k) == z3.Select(QIDS, k), kind="post", where=where(f), tag=tag))
             else:
-                run.add(Obligation(prop, qualname(f), "queue_empty", p.pc, z3.And(z3.BoolVal(same_obj), Z(q.length) == 0), kind="post", where=where(f), tag=tag))
+                # Q' == [] ; the list object may be emptied in place or replaced (both are 'Q == []'), ownership decides whether that is safe
+                run.add(Obligation(prop, qualname(f), "queue_empty", p.pc, lst_len(q) == 0, kind="post", where=where(f), tag=tag))
             run.add(Obligation(prop, qualname(f), "lock_released", p.pc, z3.BoolVal(not t.attrs["_tx_queue_lock"].held), kind="post", where=where(f), tag=tag))
             run.add(Obligation(prop, qualname(f), "frame_other_state", p.pc,
                                z3.BoolVal(all(t.attrs.get(k) is ctx["pre"][k][0] for k in ctx["pre"] if k != "_tx_queue")), kind="frame", where=where(f), tag=tag))
@@ -237,11 +238,11 @@ def build_recv(run, prop, E):
         if r is None:
             run.add(Obligation(prop, qualname(g), "dropped_iff_no_message_or_idle", p.pc, z3.Not(accepted), kind="post", where=where(g), tag=tag))
             run.add(Obligation(prop, qualname(g), "dropped_leaves_queue_unchanged", p.pc,
-                               z3.And(z3.BoolVal(q is ctx["q"]), Z(q.length) == QN, z3.BoolVal(z3.eq(q.arr, QIDS))), kind="post", where=where(g), tag=tag))
+                               z3.And(z3.BoolVal(q is ctx["q"]), lst_len(q) == QN, z3.BoolVal(z3.eq(lst_arr(q), QIDS))), kind="post", where=where(g), tag=tag))
         else:
             run.add(Obligation(prop, qualname(g), "accepted_iff_message_and_running", p.pc, accepted, kind="post", where=where(g), tag=tag))
             run.add(Obligation(prop, qualname(g), "accepted_is_enqueued_at_end_and_returned", p.pc,
-                               z3.And(z3.BoolVal(q is ctx["q"] and isinstance(r, SRef)), Z(q.length) == QN + 1, z3.Select(q.arr, QN) == rmid,
+                               z3.And(z3.BoolVal(q is ctx["q"] and isinstance(r, SRef)), lst_len(q) == QN + 1, z3.Select(lst_arr(q), QN) == rmid,
                                       (r.idt == rmid) if isinstance(r, SRef) else z3.BoolVal(False)), kind="post", where=where(g), tag=tag))
         run.add(Obligation(prop, qualname(g), "frame_other_state", p.pc,
                            z3.BoolVal(all(t.attrs.get(k) is ctx["pre"][k][0] for k in ctx["pre"] if k != "_tx_queue")), kind="frame", where=where(g), tag=tag))
@@ -260,7 +261,7 @@ def lst_arr(x):
     if isinstance(x, list):
         a = z3.K(I, z3.IntVal(0))
         for i, v in enumerate(x):
-            a = z3.Store(a, i, v.idt)
+            a = z3.Store(a, i, v.idt if isinstance(v, SRef) else z3.IntVal(-1))
         return a
     return x.arr
 
